@@ -110,3 +110,46 @@ Proof.
   rewrite firstn_app. rewrite (firstn_all2 (n := (8 * N.to_nat cap)%nat) coded) by exact Hlo.
   eexists. reflexivity.
 Qed.
+
+(* ---------- reading a field wider than its value: the low bits ---------- *)
+Lemma rd_bits_mod n v rest :
+  rd n (bits_of n v ++ rest) = Ok (v mod 2 ^ N.of_nat n, rest).
+Proof.
+  rewrite <- (bits_of_mod n v).
+  apply rd_bits with (B := 2 ^ N.of_nat n); [reflexivity|].
+  apply N.mod_lt. apply N.pow_nonzero. lia.
+Qed.
+
+(* ReadSigned(n) of the n low bits of uint(z) gives z back, for z in the two's complement range *)
+Lemma rd_signed_bits n z rest :
+  (1 <= n <= 64)%nat ->
+  (- 2 ^ (Z.of_nat n - 1) <= z < 2 ^ (Z.of_nat n - 1))%Z ->
+  rd_signed n (bits_of n (z_to_u64 z) ++ rest) = Ok (z, rest).
+Proof.
+  intros Hn Hz. unfold rd_signed. rewrite rd_bits_mod. cbn [rbind].
+  set (v := z_to_u64 z mod 2 ^ N.of_nat n).
+  set (P := (2 ^ (Z.of_nat n - 1))%Z) in *.
+  assert (HP : (0 < P)%Z) by (apply Z.pow_pos_nonneg; lia).
+  assert (HM : (2 ^ Z.of_nat n = 2 * P)%Z).
+  { unfold P. rewrite <- Z.pow_succ_r by lia. f_equal. lia. }
+  assert (Hv : Z.of_N v = (z mod (2 * P))%Z).
+  { unfold v, z_to_u64. rewrite N2Z.inj_mod, N2Z.inj_pow, nat_N_Z.
+    rewrite Z2N.id by (apply Z.mod_pos_bound; reflexivity).
+    change (Z.of_N 2) with 2%Z. rewrite HM.
+    symmetry. apply Znumtheory.Zmod_div_mod; [lia|reflexivity|].
+    rewrite <- HM. exists (2 ^ (64 - Z.of_nat n))%Z.
+    rewrite <- Z.pow_add_r by lia. f_equal. lia. }
+  assert (HPN : Z.of_N (2 ^ N.of_nat (n - 1)) = P).
+  { rewrite N2Z.inj_pow, nat_N_Z. unfold P. f_equal. lia. }
+  rewrite N.testbit_eqb.
+  destruct (Z_lt_le_dec z 0) as [Hneg|Hpos].
+  - assert (E : (z mod (2 * P) = z + 2 * P)%Z).
+    { rewrite <- (Z_mod_plus_full z 1 (2 * P)). rewrite Z.mul_1_l. apply Z.mod_small. lia. }
+    assert (D : v / 2 ^ N.of_nat (n - 1) = 1).
+    { symmetry. apply (N.div_unique v _ 1 (v - 2 ^ N.of_nat (n - 1))); lia. }
+    rewrite D. cbn [N.modulo N.div_eucl N.eqb Pos.eqb]. change (1 mod 2 =? 1) with true. cbv iota.
+    f_equal. f_equal. lia.
+  - assert (E : (z mod (2 * P) = z)%Z) by (apply Z.mod_small; lia).
+    assert (D : v / 2 ^ N.of_nat (n - 1) = 0) by (apply N.div_small; lia).
+    rewrite D. change (0 mod 2 =? 1) with false. cbv iota. f_equal. f_equal. lia.
+Qed.
